@@ -32,8 +32,12 @@ position wins).  The callers check that `idx` is in range (NumPy raises otherwis
 def scatter (a idx vals : List Nat) : List Nat :=
   (idx.zip vals).foldl (fun acc kv => acc.set kv.1 kv.2) a
 
-/-- `np.sort` of one row. -/
-def sortNat (l : List Nat) : List Nat := l.mergeSort (fun a b => decide (a ≤ b))
+def insertNat (a : Nat) : List Nat → List Nat
+  | [] => [a]
+  | b :: l => if a ≤ b then a :: b :: l else b :: insertNat a l
+
+/-- `np.sort` of one row (the increasing rearrangement; written as an insertion sort). -/
+def sortNat (l : List Nat) : List Nat := l.foldr insertNat []
 
 /-- one row of `classidx`: `classidx[:, g] = np.sort(idx[:, g], axis=1)` – the coordinates of
 the modes in `g` are replaced by their sorted values (smallest into `g[0]`, …). -/
